@@ -4,7 +4,7 @@
    - so each is above every page LSN when it is replayed. *)
 From Coq Require Import Arith Lia Bool List NArith Permutation.
 From Mkdb Require Import Model.Engine Proofs.TreeProofs Proofs.StoreInv Proofs.CrashBase Proofs.CrashPages
-  Proofs.CrashRedo Proofs.CrashLog Proofs.CrashMain Proofs.CrashPrefix Proofs.CrashHist Proofs.CrashTorn Gen.Params.
+  Proofs.CrashRedo Proofs.CrashLog Proofs.CrashMain Proofs.CrashPrefix Proofs.CrashTorn Gen.Params.
 Import ListNotations.
 Local Open Scope N_scope.
 
@@ -194,9 +194,9 @@ Lemma replay_one_pages s w s1 B :
   pages_below (w_lsn w + 1) (forest s1).
 Proof.
   intros Hrep Hp HB. assert (Hp' : pages_below (w_lsn w + 1) (forest s)) by (eapply pages_below_weaken; [|exact Hp]; lia).
-  unfold replay_one in Hrep. rewrite bump_forest in Hrep.
+  unfold replay_one in Hrep. fold (pre s w) in Hrep. rewrite pre_forest in Hrep.
   destruct (find_node (w_page w) (forest s)) as [[b n]|] eqn:Ef; [|discriminate].
-  destruct (N.leb (w_lsn w) (t_lsn n)); [inversion Hrep; subst; rewrite bump_forest; exact Hp'|].
+  destruct (N.leb (w_lsn w) (t_lsn n)); [inversion Hrep; subst; rewrite pre_forest; exact Hp'|].
   destruct (w_op w).
   - destruct (negb b); [discriminate|].
     destruct (tree_insert ML MI PS MV n (w_cell w) (w_lsn w) (w_val w) _) as [[t' nf]|e] eqn:Eti.
@@ -223,7 +223,7 @@ Proof.
         pose proof (redo_root_move_pages (w_lsn w + 1) a b0 c d) as Hrp;
         destruct (redo_root_move a b0 c d) as [s2 [u|e|]] end; try discriminate.
       inversion Hrep; subst s2. cbn [fst forest] in Hrp. apply Hrp; [lia | exact H1].
-    + destruct e; try discriminate. inversion Hrep; subst. cbn [forest]. rewrite ?bump_forest. exact Hp'.
+    + destruct e; try discriminate. inversion Hrep; subst. cbn [forest]. rewrite ?pre_forest. exact Hp'.
   - destruct n; [|discriminate]. destruct (Nat.ltb _ _); [discriminate|]. destruct (existsb _ _); [|discriminate].
     inversion Hrep; subst. cbn [set_forest forest]. apply pages_below_touch; [lia | exact Hp'].
   - destruct n; [|discriminate]. destruct (existsb _ _); [|discriminate].
@@ -301,20 +301,6 @@ Proof.
       split; [exact Hw|]. split; [exact Gd|]. split; [exact Hc|]. split; [exact Lold|]. split; [exact Hs | exact Hn'].
 Qed.
 
-Lemma tinv_step y ev y1 o : Inv y -> TornInv y -> ev_ok y ev -> step y ev = (SOk y1, o) -> TornInv y1.
-Proof.
-  intros HI HT Hok Hs. pose proof (inv_step y ev y1 o HI Hok Hs) as HI1.
-  destruct ev; cbn [ev_ok] in Hok; try contradiction; cbn [step] in Hs.
-  - pose proof (tinv_stmt y st HI HT) as H1. destruct (exec y st) as [y2 o2]. cbn [fst] in H1.
-    destruct o2; inversion Hs; subst; exact H1.
-  - inversion Hs; subst. destruct HI1 as (r & _ & _ & _ & HGL). cbn [do_flush mem disk wal] in *.
-    apply tinv_synced; cbn [mem disk wal]; [exact HGL | apply flush_clean | apply N.le_refl].
-  - destruct (recover y) as [y2|e|] eqn:Er; inversion Hs; subst.
-    destruct (recover_shape _ _ Er) as [A B]. apply tinv_after_recover; assumption.
-  - match type of Hs with context [recover ?a] => destruct (recover a) as [y2|e|] eqn:Er end; inversion Hs; subst.
-    destruct (recover_shape _ _ Er) as [A B]. apply tinv_after_recover; assumption.
-Qed.
-
 Lemma tinv_init : TornInv init_sys.
 Proof.
   unfold init_sys. apply tinv_synced; cbn [mem disk wal].
@@ -323,27 +309,110 @@ Proof.
   - apply N.le_refl.
 Qed.
 
-Theorem tinv_run evs : forall y y' os,
-  Inv y -> TornInv y -> hist_ok y evs -> run_events y evs = (SOk y', os) -> TornInv y'.
+
+(* ---------- the exact counters after a replay: they do not depend on the pages ---------- *)
+Fixpoint key_fold (k : N) (ws : list walentry) : N :=
+  match ws with
+  | [] => k
+  | w :: r => key_fold (match w_op w with OpInsert => N.max k (w_cell w) | _ => k end) r
+  end.
+
+Fixpoint lsn_fold (l : N) (ws : list walentry) : N :=
+  match ws with [] => l | w :: r => lsn_fold (N.max l (w_lsn w + 1)) r end.
+
+Lemma pre_exact s w :
+  lastKey (pre s w) = match w_op w with OpInsert => N.max (lastKey s) (w_cell w) | _ => lastKey s end /\
+  nextLSN (pre s w) = N.max (nextLSN s) (w_lsn w + 1).
 Proof.
-  induction evs as [|ev r IH]; intros y y' os HI HT Hok Hr.
-  - cbn in Hr. inversion Hr; subst. exact HT.
-  - cbn [hist_ok] in Hok. destruct Hok as [Hev Hrest]. cbn [run_events] in Hr.
-    destruct (step y ev) as [[y1|e|] o] eqn:Es; try discriminate.
-    destruct (run_events y1 r) as [fin os'] eqn:Er. inversion Hr; subst.
-    eapply IH; [eapply inv_step; eauto | eapply tinv_step; eauto | exact Hrest | exact Er].
+  unfold pre, bump_key, bump_lsn.
+  destruct (N.leb_spec (nextLSN s) (w_lsn w)); destruct (w_op w); cbn [lastKey nextLSN]; split; lia.
+Qed.
+
+Lemma replay_one_exact s w s1 : replay_one s w = RCont s1 ->
+  lastKey s1 = match w_op w with OpInsert => N.max (lastKey s) (w_cell w) | _ => lastKey s end /\
+  nextLSN s1 = N.max (nextLSN s) (w_lsn w + 1).
+Proof.
+  unfold replay_one. fold (pre s w). destruct (pre_exact s w) as [A B]. set (s0 := pre s w) in *.
+  destruct (find_node (w_page w) (forest s0)) as [[isroot n]|]; [|discriminate].
+  destruct (N.leb (w_lsn w) (t_lsn n)); [intros H; inversion H; subst; auto|].
+  destruct (w_op w) eqn:Eop.
+  - destruct (negb isroot); [discriminate|].
+    destruct (tree_insert ML MI PS MV n (w_cell w) (w_lsn w) (w_val w) (nextFree s0)) as [[t' nf]|e].
+    + destruct (N.eqb (t_off t') (w_page w)); [intros H; inversion H; subst; cbn [nextLSN lastKey]; split; [lia | exact B]|].
+      match goal with |- context [redo_root_move ?a ?b ?c ?d] =>
+        pose proof (redo_root_move_lsn a b c d) as L; pose proof (redo_root_move_key a b c d) as K;
+        destruct (redo_root_move a b c d) as [s2 [u|e|]] end;
+        try discriminate.
+      intros H; inversion H; subst. cbn [fst nextLSN lastKey] in L, K. rewrite L, K. split; [lia | exact B].
+    + destruct e; try discriminate. intros H; inversion H; subst; cbn [nextLSN lastKey]; split; [lia | exact B].
+  - destruct n; [|discriminate]. destruct (Nat.ltb MV _); [discriminate|].
+    destruct (existsb _ _); [|discriminate]. intros H; inversion H; subst; cbn [set_forest nextLSN lastKey]; auto.
+  - destruct n; [|discriminate].
+    destruct (existsb _ _); [|discriminate]. intros H; inversion H; subst; cbn [set_forest nextLSN lastKey]; auto.
+Qed.
+
+Lemma replay_exact ws : forall s r, replay s ws = RCont r ->
+  lastKey r = key_fold (lastKey s) ws /\ nextLSN r = lsn_fold (nextLSN s) ws.
+Proof.
+  induction ws as [|w rest IH]; intros s r H.
+  - cbn in H. inversion H; subst. auto.
+  - cbn [replay] in H. destruct (replay_one s w) as [s1| | |] eqn:E; try discriminate.
+    destruct (replay_one_exact _ _ _ E) as [A B]. destruct (IH _ _ H) as [C D].
+    cbn [key_fold lsn_fold]. rewrite <- A, <- B. auto.
+Qed.
+
+Lemma key_fold_mono ws : forall k k', k <= k' -> key_fold k ws <= key_fold k' ws.
+Proof.
+  induction ws as [|w r IH]; intros k k' H; [exact H|]. cbn [key_fold]. apply IH. destruct (w_op w); lia.
+Qed.
+Lemma key_fold_ge ws : forall k, k <= key_fold k ws.
+Proof.
+  induction ws as [|w r IH]; intros k; [cbn; lia|]. cbn [key_fold].
+  eapply N.le_trans; [|apply IH]. destruct (w_op w); lia.
+Qed.
+Lemma key_fold_app a b k : key_fold k (a ++ b) = key_fold (key_fold k a) b.
+Proof. revert k. induction a as [|w r IH]; intros k; [reflexivity|]. cbn [app key_fold]. apply IH. Qed.
+
+Lemma lsn_fold_mono ws : forall k k', k <= k' -> lsn_fold k ws <= lsn_fold k' ws.
+Proof. induction ws as [|w r IH]; intros k k' H; [exact H|]. cbn [lsn_fold]. apply IH. lia. Qed.
+Lemma lsn_fold_ge ws : forall k, k <= lsn_fold k ws.
+Proof.
+  induction ws as [|w r IH]; intros k; [cbn; lia|]. cbn [lsn_fold]. eapply N.le_trans; [|apply IH]. lia.
+Qed.
+Lemma lsn_fold_app a b k : lsn_fold k (a ++ b) = lsn_fold (lsn_fold k a) b.
+Proof. revert k. induction a as [|w r IH]; intros k; [reflexivity|]. cbn [app lsn_fold]. apply IH. Qed.
+
+(* C11's invariant and the LSN discipline carry over to a store with the same pages and
+   counters at least as large *)
+Lemma good_transfer a b : seq a b -> Good b -> lastKey b <= lastKey a -> nextLSN b <= nextLSN a -> Good a.
+Proof.
+  intros [Hf Hp Hn] [[Bw Bn Bk] [Bl1 Bl2]] Hk Hl. split.
+  - constructor.
+    + rewrite Hn. apply (fclean_Forall _ _ _ Hf); [|exact Bw]. intros t t' E H.
+      apply (erase_WFT false). rewrite E. apply (erase_WFT false). exact H.
+    + rewrite (fclean_all_offsets _ _ Hf). exact Bn.
+    + assert (Bk' : Forall (fun t => Forall (fun x => x <= lastKey a) (tree_keys t)) (forest b)).
+      { eapply Forall_impl; [|exact Bk]. cbn. intros t H. eapply Forall_impl; [|exact H]. cbn. intros; lia. }
+      apply (fclean_Forall _ _ _ Hf); [|exact Bk']. intros t t' E H.
+      rewrite <- (erase_keys false t), E, erase_keys. exact H.
+  - split; [lia|].
+    assert (Bl' : Forall (fun t => Forall (fun n => t_lsn n < nextLSN a) (nodes t)) (forest b))
+      by (eapply Forall_nodes_weaken; [exact Hl | exact Bl2]).
+    apply (fclean_Forall _ _ _ Hf); [|exact Bl']. intros t t' E H.
+    rewrite Forall_forall in *. intros n Hn'.
+    destruct (erase_eq_nodes t t' n (eq_sym E) Hn') as (n' & Hin & En).
+    rewrite <- (erase_lsn n), <- En, erase_lsn. apply H. exact Hin.
 Qed.
 
 (* C04, in-place case: whatever subset W of the dirty leaves reached the file before the crash
-   (the header did not), recovery restores every table *)
-Theorem torn_flush_recovers y W d :
-  reachable_c y -> torn_disk y W = Some d ->
+   (the header did not), recovery restores every table, and the recovered system satisfies the
+   invariants again (in particular: every key <= lastKey, every page LSN < nextLSN) *)
+Theorem torn_flush_inv y W d :
+  Inv y -> TornInv y -> torn_disk y W = Some d ->
   exists y', recover (mkSys d d (wal y)) = Ok y' /\ seq (mem y') (mem y) /\ abs (mem y') = abs (mem y) /\
-             step y (EvTornFlush W) = (SOk y', None).
+             step y (EvTornFlush W) = (SOk y', None) /\ Inv y' /\ TornInv y'.
 Proof.
-  intros Hy Htd. pose proof (reachable_inv_c y Hy) as HI.
-  assert (HT : TornInv y).
-  { destruct Hy as (evs & os & Hok & Hr). eapply tinv_run; [apply inv_init | apply tinv_init | exact Hok | exact Hr]. }
+  intros HI HT Htd.
   destruct HI as (r & Hrep & Hseq & Gr & [Gm Lm]).
   destruct HT as (old & new & Hw & Gd & Hc & Lold & Hs & Hn).
   unfold torn_disk in Htd.
@@ -351,16 +420,150 @@ Proof.
   destruct (N.eqb_spec (ptRoot (mem y)) (ptRoot (disk y))) as [Ept|]; [|discriminate]. cbn [andb] in Htd.
   destruct (merge_forest W (forest (disk y)) (forest (mem y))) as [fd|] eqn:Em; [|discriminate].
   inversion Htd; subst d. clear Htd.
+  assert (Hro : replay (disk y) old = RCont (disk y)) by (apply replay_inert; assumption).
   assert (Hrn : replay (disk y) new = RCont r).
-  { rewrite Hw in Hrep. rewrite (replay_app _ old new (disk y)) in Hrep; [exact Hrep|]. apply replay_inert; assumption. }
+  { rewrite Hw in Hrep. rewrite (replay_app _ old new (disk y) Hro) in Hrep. exact Hrep. }
   assert (Hfr : fresh_run (disk y) new).
   { apply (fresh_run_sorted new (disk y) (nextLSN (disk y))); [|exact Hs]. destruct Gd as [_ [_ Hl]]. exact Hl. }
-  destruct Gm as [[_ Hnm _] _].
+  pose proof Gm as [[_ Hnm _] _].
   destruct (torn_recover W (disk y) (mem y) old new r fd Gd Hc Hnm Lold Hrn Hseq Hfr Enf Ept Em) as (g' & Hrg & Sg).
-  assert (Hrec : recover (mkSys (set_forest (disk y) fd) (set_forest (disk y) fd) (wal y)) =
-                 Ok (mkSys (flush g') (flush g') (wal y))).
+  set (d := set_forest (disk y) fd) in *.
+  assert (Hrec : recover (mkSys d d (wal y)) = Ok (mkSys (flush g') (flush g') (wal y))).
   { unfold recover. cbn [disk wal]. rewrite Hw, Hrg. reflexivity. }
+  (* counters of the recovered store dominate those of the replay from the old file *)
+  destruct (replay_exact _ _ _ Hrg) as [Kg Lg]. destruct (replay_exact _ _ _ Hrn) as [Kr Lr].
+  change (lastKey d) with (lastKey (disk y)) in Kg. change (nextLSN d) with (nextLSN (disk y)) in Lg.
+  assert (Hkle : lastKey r <= lastKey g').
+  { rewrite Kg, Kr, key_fold_app. apply key_fold_mono. apply key_fold_ge. }
+  assert (Hlle : nextLSN r <= nextLSN g').
+  { rewrite Lg, Lr, lsn_fold_app. apply lsn_fold_mono. apply lsn_fold_ge. }
+  assert (Sgr : seq g' r) by (eapply seq_trans; [exact Sg | apply seq_sym; exact Hseq]).
+  pose proof (good_transfer g' r Sgr Gr Hkle Hlle) as Gg.
+  pose proof (good_flush g' Gg) as Gf.
   assert (Sf : seq (flush g') (mem y)) by (eapply seq_trans; [apply seq_flush | exact Sg]).
+  assert (HGL : GL (wal y) (flush g')).
+  { split; [exact Gf|]. rewrite <- Hw in Hrg.
+    destruct (replay_lsn _ _ _ Hrg) as [_ Hb]. destruct (replay_key _ _ _ Hrg) as [_ Hk].
+    unfold LogInv in *. rewrite Forall_forall in *. intros w Hw0.
+    apply (rec_inert_seq (flush g') (mem y) w Sf); [apply Hb; exact Hw0 | apply Hk; exact Hw0 | apply Lm; exact Hw0]. }
+  assert (HI' : Inv (mkSys (flush g') (flush g') (wal y))).
+  { exists (flush g'). cbn [mem disk wal]. split; [apply replay_inert; apply HGL|].
+    split; [apply seq_refl|]. split; [exact Gf | exact HGL]. }
   eexists. split; [exact Hrec|]. cbn [mem]. split; [exact Sf|]. split; [apply seq_abs; exact Sf|].
-  cbn [step]. unfold torn_disk. rewrite Enf, Ept, !N.eqb_refl. cbn [andb]. rewrite Em, Hrec. reflexivity.
+  split; [|split; [exact HI'|]].
+  - cbn [step]. unfold torn_disk. rewrite Enf, Ept, !N.eqb_refl. cbn [andb]. rewrite Em. fold d. rewrite Hrec. reflexivity.
+  - apply tinv_synced; cbn [mem disk wal]; [exact HGL | apply flush_clean | apply N.le_refl].
+Qed.
+
+(* ====================== a second crash, inside the flush that ends recovery ====================== *)
+(* whether a torn file exists does not depend on which pages were written *)
+Lemma merge_tree_indep W W' a : forall b x, merge_tree W a b = Some x -> exists x', merge_tree W' a b = Some x'.
+Proof.
+  induction a as [od ld dd cd hld hrd lsd rsd | od ld dd kd rd IHk IHr] using tree_ind2; intros b x H.
+  - destruct b as [om lm dm cm hlm hrm lsm rsm|]; [|discriminate]. cbn [merge_tree] in *.
+    destruct (N.eqb od om); [eauto | discriminate].
+  - destruct b as [|om lm dm km rm]; [discriminate|]. rewrite merge_tree_node in *.
+    destruct (N.eqb od om && N.eqb ld lm && negb dm); [|discriminate].
+    destruct (merge_kids W kd km) as [k|] eqn:Ek; [|discriminate].
+    destruct (merge_tree W rd rm) as [r|] eqn:Er; [|discriminate].
+    destruct (IHr _ _ Er) as (r' & ->).
+    assert (G : exists k', merge_kids W' kd km = Some k').
+    { clear - IHk Ek. revert km k Ek. induction kd as [|[sa ca] ra IH]; intros [|[sb cb] rb] k Ek; cbn [merge_kids] in *; try discriminate.
+      - eauto.
+      - destruct (N.eqb sa sb); [|discriminate].
+        destruct (merge_tree W ca cb) as [c|] eqn:Ec; [|discriminate].
+        destruct (merge_kids W ra rb) as [r0|] eqn:Er0; [|discriminate].
+        inversion IHk as [|? ? Hca Hra]; subst. cbn [snd] in Hca.
+        destruct (Hca _ _ Ec) as (c' & ->). destruct (IH Hra _ _ Er0) as (r' & ->). eauto. }
+    destruct G as (k' & ->). eauto.
+Qed.
+
+Lemma merge_forest_indep W W' : forall a b x, merge_forest W a b = Some x -> exists x', merge_forest W' a b = Some x'.
+Proof.
+  induction a as [|t a IH]; intros [|u b] x H; cbn [merge_forest] in *; try discriminate; [eauto|].
+  destruct (merge_tree W t u) as [c|] eqn:Ec; [|discriminate].
+  destruct (merge_forest W a b) as [r|] eqn:Er; [|discriminate].
+  destruct (merge_tree_indep W W' _ _ _ Ec) as (c' & ->). destruct (IH _ _ Er) as (r' & ->). eauto.
+Qed.
+
+Lemma inW_app W W2 o : inW (W ++ W2) o = inW W o || inW W2 o.
+Proof. unfold inW. apply existsb_app. Qed.
+
+Lemma mix_mix W W2 fin l : fin_ok fin -> mixfun W2 fin (mixfun W fin l) = mixfun (W ++ W2) fin l.
+Proof.
+  intros Hf. unfold mixfun. rewrite inW_app. destruct (inW W (t_off l)) eqn:E; cbn [orb].
+  - destruct (Hf (t_off l)) as [_ Ho]. rewrite Ho. destruct (inW W2 (t_off l)); reflexivity.
+  - reflexivity.
+Qed.
+
+Lemma clean_leaves t l : erase false t = t -> In l (leaves t) -> erase false l = l.
+Proof.
+  intros Ht Hl. assert (H : map (erase false) (leaves t) = leaves t) by (rewrite <- erase_leaves, Ht; reflexivity).
+  clear Ht. induction (leaves t) as [|x r IH]; [contradiction|]. cbn [map] in H. injection H as Hx Hr.
+  destruct Hl as [->|Hl]; auto.
+Qed.
+
+Lemma erase_repl_clean sg t :
+  lp sg -> erase false t = t -> (forall l, In l (leaves t) -> erase false (sg l) = sg l) ->
+  erase false (repl sg t) = repl sg t.
+Proof.
+  intros Hlp. induction t as [off l d cells hl hr ls rs | off l d kids rgt IHk IHr] using tree_ind2; intros Hc H.
+  - cbn [repl]. apply H. left. reflexivity.
+  - rewrite erase_node in Hc. injection Hc as Hd Hkc Hrc. subst d.
+    rewrite repl_node, erase_node. rewrite leaves_node in H. f_equal.
+    + unfold ekids, rkids. rewrite map_kids_map.
+      apply (map_kids_ext (fun t => erase false (repl sg t)) (repl sg)).
+      rewrite Forall_forall in *. intros sc Hsc. apply IHk; [exact Hsc | |].
+      * clear - Hkc Hsc. unfold ekids in Hkc. induction kids as [|[s c] r IH]; [contradiction|].
+        cbn [map fst snd] in Hkc. injection Hkc as Hc Hr. destruct Hsc as [<-|Hsc]; [exact Hc | apply IH; assumption].
+      * intros x Hx. apply H. apply in_or_app. left. unfold kids_leaves. apply in_flat_map. eauto.
+    + apply IHr; [exact Hrc|]. intros x Hx. apply H. apply in_or_app. right. exact Hx.
+Qed.
+
+Lemma fin_of_clean R o : erase false (fin_of R o) = fin_of R o.
+Proof. unfold fin_of. destruct (find _ _); [apply erase_idem | reflexivity]. Qed.
+
+(* the file left by a torn flush of the recovery that followed a torn flush is the file a single
+   torn flush of the original system would have left, with both page sets written *)
+Theorem torn_twice y W d g' W2 d2 :
+  Inv y -> TornInv y -> torn_disk y W = Some d -> replay d (wal y) = RCont g' ->
+  torn_disk (mkSys g' d (wal y)) W2 = Some d2 ->
+  torn_disk y (W ++ W2) = Some d2.
+Proof.
+  intros HI HT Htd Hrg Htd2.
+  destruct (torn_flush_inv y W d HI HT Htd) as (y' & Hrec & Sy & _ & _ & HI' & _).
+  unfold recover in Hrec. cbn [disk wal] in Hrec. rewrite Hrg in Hrec. inversion Hrec; subst y'. clear Hrec.
+  cbn [mem] in Sy. assert (Sg : seq g' (mem y)) by (eapply seq_trans; [apply seq_sym; apply seq_flush | exact Sy]).
+  destruct HI as (r & Hrep & Hseq & Gr & [Gm Lm]).
+  destruct HT as (old & new & Hw & Gd & Hc & Lold & Hs & Hn).
+  pose proof Gm as [[_ Hnm _] _].
+  unfold torn_disk in *. cbn [mem disk] in *.
+  destruct (N.eqb_spec (nextFree (mem y)) (nextFree (disk y))) as [Enf|]; [|discriminate].
+  destruct (N.eqb_spec (ptRoot (mem y)) (ptRoot (disk y))) as [Ept|]; [|discriminate]. cbn [andb] in *.
+  destruct (merge_forest W (forest (disk y)) (forest (mem y))) as [fd|] eqn:Em; [|discriminate].
+  inversion Htd; subst d. clear Htd. cbn [set_forest forest nextFree ptRoot] in Htd2.
+  destruct (N.eqb (nextFree g') (nextFree (disk y)) && N.eqb (ptRoot g') (ptRoot (disk y))); [|discriminate].
+  destruct (merge_forest W2 fd (forest g')) as [fd2|] eqn:Em2; [|discriminate].
+  inversion Htd2; subst d2. clear Htd2.
+  destruct (merge_forest_indep W (W ++ W2) _ _ _ Em) as (fd' & Em').
+  rewrite Em'. f_equal. unfold set_forest. cbn [forest lastKey ptRoot nextFree nextLSN]. f_equal.
+  set (fin := fin_of (forest (mem y))).
+  assert (Hdc : forall t, In t (forest (disk y)) -> erase false t = t).
+  { intros t Ht. unfold fclean in Hc. rewrite <- Hc in Ht. apply in_map_iff in Ht as (t0 & <- & _). apply erase_idem. }
+  assert (Hfd : fd = mapF (mixfun W fin) (forest (disk y))).
+  { apply (merge_forest_mapF W (forest (mem y)) _ _ _ Em Hdc). intros t l Ht Hl. apply (fin_of_leaf _ t l); assumption. }
+  assert (Hfd' : fd' = mapF (mixfun (W ++ W2) fin) (forest (disk y))).
+  { apply (merge_forest_mapF (W ++ W2) (forest (mem y)) _ _ _ Em' Hdc). intros t l Ht Hl. apply (fin_of_leaf _ t l); assumption. }
+  assert (Hng : NoDup (all_offsets (forest g'))).
+  { destruct Sg as [Fg _ _]. rewrite (fclean_all_offsets _ _ Fg). exact Hnm. }
+  assert (Hfd2 : fd2 = mapF (mixfun W2 (fin_of (forest g'))) fd).
+  { apply (merge_forest_mapF W2 (forest g') _ _ _ Em2).
+    - intros t Ht. rewrite Hfd in Ht. apply in_map_iff in Ht as (t0 & <- & Ht0).
+      apply erase_repl_clean; [apply lp_mix; apply fin_of_ok | apply Hdc; exact Ht0|].
+      intros l Hl. unfold mixfun. destruct (inW W (t_off l)); [apply fin_of_clean | apply (clean_leaves t0); auto].
+    - intros t l Ht Hl. apply (fin_of_leaf _ t l); assumption. }
+  rewrite Hfd2, Hfd', Hfd. rewrite mapF_comp by (apply lp_mix; apply fin_of_ok).
+  apply mapF_ext. intros l _. rewrite <- (mix_mix W W2 fin l (fin_of_ok _)).
+  unfold mixfun at 1 3. destruct (inW W2 (t_off (mixfun W fin l))); [|reflexivity].
+  apply fin_of_fclean. first [exact (seq_forest _ _ Sg) | exact (eq_sym (seq_forest _ _ Sg))].
 Qed.
